@@ -60,6 +60,13 @@ impl RustcOracle {
         Some((out.status.success(), err))
     }
     pub fn input_ok(&mut self, r: &Request) -> Option<bool> {
+        let flat;
+        let r = if r.has_none_group() {
+            flat = r.flattened();
+            &flat
+        } else {
+            r
+        };
         let body = match r.mode {
             Mode::Attr => format!("#[derive_ex({})]\n{}", r.attr, r.item),
             Mode::Derive => format!("#[derive(Ex)]\n{}", r.item),
